@@ -1,7 +1,7 @@
 #!/usr/bin/env python3
 import json, sys, os
 pid = sys.argv[1]
-path = f"/verif/evidence/{pid}.json"
+path = os.environ.get("VERIF_ROOT", "/verif") + f"/evidence/{pid}.json"
 try:
     ev = json.load(open(path))
 except Exception as e:
